@@ -464,6 +464,7 @@ func (p *processor) Spawn(parent *Event, nodes []*insaneJSON.Node) {
 		child.Root.MutateToNode(node)
 		child.SetChildKind()
 		child.action = nextActionIdx
+		verifSpawn(parent, child, len(parent.children)-1, uint64(p.id))
 
 		ok, _ := p.doActions(child)
 		if ok {
